@@ -511,14 +511,19 @@ namespace bloch::runtime {
                 m_currentClassCtx = owner;
                 m_inStaticContext = true;
             }
+            // ... and in a frame of its own: the size names statics, never a local of whichever
+            // function happens to be creating the object
             Value sizeVal;
+            beginFrame();
             try {
                 sizeVal = eval(field.arraySizeExpr);
             } catch (...) {
+                endFrame();
                 m_currentClassCtx = prevClass;
                 m_inStaticContext = prevStatic;
                 throw;
             }
+            endFrame();
             m_currentClassCtx = prevClass;
             m_inStaticContext = prevStatic;
             if (sizeVal.type != Value::Type::Int)
